@@ -1122,3 +1122,96 @@ func (c *Ctx) ruleHandoverCapacity() {
 var handoverReviewed = map[string]string{
 	"(*pkg/server.BgpServer).handleMGMTOp": "request/response rendezvous: mgmtOperation creates the reply channel, hands the request over and then blocks in the receive on it; the reply is sent exactly once per request",
 }
+
+// apiCallbackUnderLockReviewed: API methods that run the caller's callback inside the management context by design.
+var apiCallbackUnderLockReviewed = map[string]string{
+	"(*pkg/server.BgpServer).ListVrf":             "the callback runs inside the management operation that walks the VRF map; it receives a converted copy and the gRPC layer only appends to a slice",
+	"(*pkg/server.BgpServer).ListDynamicNeighbor": "the callback runs inside the management operation that walks the peer-group map; it receives a converted copy and the gRPC layer only appends to a slice",
+}
+
+// ruleAPICallbackUnderLock: a callback supplied by an API caller is not run while the server lock is held.
+func (c *Ctx) ruleAPICallbackUnderLock() {
+	a := c.lockAnalysis()
+	r := c.R
+	rule := "E1c.api-callback-under-lock"
+	r.Rule(rule, "the callbacks that exported BgpServer methods take from their callers (ListPath, ListPeer, Watch… — in the gRPC layer they end in stream.Send, which blocks on the client) are invoked with sharedData.mu not held, except at the two reviewed listing methods that run inside a management operation: a consumer that needs another API call to make progress, or is merely slow, would otherwise stop the management context and with it every peer", 5)
+	bs := c.P.NamedType("pkg/server", "BgpServer")
+	if bs == nil {
+		r.Undec(rule, "-", "anchor:BgpServer", "-", "not found")
+		return
+	}
+	for _, fn := range c.P.FuncsIn("pkg/server") {
+		outer := ir.Outer(fn)
+		if outer.Signature.Recv() == nil || ir.NamedOf(ir.Deref(outer.Signature.Recv().Type())) != bs || !token.IsExported(outer.Name()) {
+			continue
+		}
+		// the func-typed parameters of the exported method
+		cb := map[*ssa.Parameter]bool{}
+		for _, p := range outer.Params {
+			if _, ok := p.Type().Underlying().(*types.Signature); ok {
+				cb[p] = true
+			}
+		}
+		if len(cb) == 0 {
+			continue
+		}
+		isCallback := func(v ssa.Value) bool {
+			for i := 0; i < 4; i++ {
+				switch x := v.(type) {
+				case *ssa.Parameter:
+					return cb[x]
+				case *ssa.UnOp:
+					v = x.X
+					continue
+				case *ssa.FreeVar:
+					cell := cellOfFreeVar(x)
+					if al, ok := cell.(*ssa.Alloc); ok && al.Referrers() != nil {
+						for _, ref := range *al.Referrers() {
+							if st, ok := ref.(*ssa.Store); ok && st.Addr == ssa.Value(al) {
+								if p, ok := st.Val.(*ssa.Parameter); ok && cb[p] {
+									return true
+								}
+							}
+						}
+					}
+					return false
+				case *ssa.Alloc:
+					if x.Referrers() != nil {
+						for _, ref := range *x.Referrers() {
+							if st, ok := ref.(*ssa.Store); ok && st.Addr == ssa.Value(x) {
+								if p, ok := st.Val.(*ssa.Parameter); ok && cb[p] {
+									return true
+								}
+							}
+						}
+					}
+					return false
+				}
+				return false
+			}
+			return false
+		}
+		n := 0
+		for _, b := range fn.Blocks {
+			for _, in := range b.Instrs {
+				call, ok := in.(*ssa.Call)
+				if !ok || call.Call.IsInvoke() || call.Call.StaticCallee() != nil || !isCallback(call.Call.Value) {
+					continue
+				}
+				n++
+				fk := ir.FuncKey(outer)
+				cons := fmt.Sprintf("caller's callback invoked #%d", n)
+				may, _, reached := a.At(call)
+				held := reached && may[lkShared] != locks.None
+				switch {
+				case !held:
+					r.Ok(rule, fk, cons, c.P.InstrPos(call), "sharedData.mu not held")
+				case apiCallbackUnderLockReviewed[fk] != "":
+					r.Except(rule, fk, cons, c.P.InstrPos(call), apiCallbackUnderLockReviewed[fk])
+				default:
+					r.Bad(rule, fk, cons, c.P.InstrPos(call), "the caller's callback runs while sharedData.mu is held ("+may.String()+"): a slow or re-entrant consumer stops the management context")
+				}
+			}
+		}
+	}
+}
